@@ -11,6 +11,7 @@ import json
 import os
 import shutil
 import subprocess
+import time
 
 from lib import common as C
 
@@ -569,6 +570,18 @@ def build_harness(ctx):
     return exe, ""
 
 
+def run_model(lines):
+    """C.run_model, retried while another builder relinks the shared uvmodel"""
+    last = None
+    for _ in range(30):
+        try:
+            return C.run_model("C16", lines)
+        except (FileNotFoundError, PermissionError, OSError, RuntimeError) as e:
+            last = e
+            time.sleep(2)
+    raise last
+
+
 def run_harness(ctx, exe, lines, timeout=1500):
     env = dict(os.environ, C16_TMP=ctx.scratch, LC_ALL="C")
     r = subprocess.run([exe], input="\n".join(lines) + "\n", stdout=subprocess.PIPE,
@@ -602,10 +615,15 @@ def run(ctx):
     ulines = gen_unit_cases(ctx)
     r, uimpl, _ = run_harness(ctx, exe, ulines)
     if r.returncode != 0 or len(uimpl) != len(ulines):
-        C.violation(ctx, "harness-unit", {"kind": "harness-failed", "rc": r.returncode,
-                                          "stderr": r.stderr[-2000:], "got": len(uimpl), "want": len(ulines)}, True)
+        k = len(uimpl)
+        C.violation(ctx, "harness-unit", {
+            "kind": "implementation hangs or crashes on this input" if k < len(ulines) else "harness-failed",
+            "rc": r.returncode, "stderr": r.stderr[-2000:], "got": len(uimpl), "want": len(ulines),
+            "case": ulines[k] if k < len(ulines) else None,
+            "theorem": "c16_read_all_exact / c16_writev_all_exact / c16_writev_all_completes"},
+            no_failing_input=not (k < len(ulines)))
         return C.finish(ctx)
-    umodel = C.run_model("C16", ulines)
+    umodel = run_model(ulines)
     unit_bad = unit_mon_bad = 0
     partial_fired = 0
     distinct = set()
@@ -653,9 +671,9 @@ def run(ctx):
         C.violation(ctx, "harness-net", {"kind": "harness-failed", "rc": r.returncode, "stderr": r.stderr[-2000:],
                                          "got": len(nimpl), "want": len(hl) + len(ll) + len(mw_lines)}, True)
         return C.finish(ctx)
-    m0 = C.run_model("C16", ml0)
-    m1 = C.run_model("C16", ml1)
-    mloc = C.run_model("C16", lml)
+    m0 = run_model(ml0)
+    m1 = run_model(ml1)
+    mloc = run_model(lml)
     limpl = nimpl[len(hl):len(hl) + len(ll)]
     mwimpl = nimpl[len(hl) + len(ll):]
 
@@ -666,6 +684,10 @@ def run(ctx):
                 k, v = kv.split("=", 1)
                 if k != "exit" and v.lstrip("-").isdigit():
                     cov[k] = cov.get(k, 0) + int(v)
+    # how often a read is split depends on timing for segments larger than the socket buffer
+    for k in ("reads", "partial_reads", "eintr_reads"):
+        if k in cov:
+            cov[k] = cov[k] // 1000 * 1000
     net_disagree = net_mon_bad = dir_defect = local_disagree = prefix_ok = 0
     samples = []
     for i, c in enumerate(allc):
@@ -676,6 +698,8 @@ def run(ctx):
         bad = None
         st = mi.split("|")
         tree = parse_tree(st[2]) if len(st) == 3 else None
+        if "status=skipped" in mi:
+            continue
         if "status=timeout" in mi:
             bad = "receiver or relay stuck (timeout)"
         elif c.desc != "malformed":
@@ -702,7 +726,9 @@ def run(ctx):
                     "connected share/lose a directory (recv_trace_dir_name does not check the client list): "
                     + (bad or "data mixed"))
             if f:
-                C.known(ctx, f, "%s %s" % (f.get("id", "F-C16-DIR"), what))
+                C.known(ctx, f, "%s clients naming the same directory (or a connected client's NAME.old) while "
+                                "connected share/lose a directory; recv_trace_dir_name does not check the "
+                                "client list" % f.get("id", "F-C16-DIR"))
             else:
                 report("samedir%d" % i, {"kind": "property-violated-on-implementation", "finding": "F-C16-DIR",
                                          "what": what, "case": c.to_json(), "model_input": ml0[i],
@@ -732,7 +758,8 @@ def run(ctx):
         what = ("4 writer threads calling send_trace_data on one socket (as `record --host` does): the byte "
                 "stream is not a sequence of whole messages: " + l)
         if f:
-            C.known(ctx, f, "%s %s" % (f.get("id", "F-C16-S5"), what))
+            C.known(ctx, f, "%s writer threads of record --host share one socket without a lock: messages "
+                            "interleave on the stream" % f.get("id", "F-C16-S5"))
         elif mw_bad == 1:
             report("manywriters", {"kind": "property-violated-on-implementation", "finding": "F-C16-S5",
                                    "what": what, "case": mw_lines[0], "impl_output": l,
@@ -753,6 +780,7 @@ def run(ctx):
         "unit_cases": len(ulines), "net_cases": len(cases), "same_name_cases": len(same),
         "local_cases": len(ll), "many_writer_runs": len(mw_lines),
         "partial_results_fired": cov,
+        "partial_results_note": "read counters are rounded down to 1000 (timing-dependent for big segments)",
         "unit_schedules_with_partial_writes": partial_fired,
         "model_code_disagreements": unit_bad + net_disagree + local_disagree,
         "monitor_failures_on_impl": unit_mon_bad + net_mon_bad,
@@ -793,11 +821,11 @@ def replay(ctx, path):
             parts += ["|", pat] + steps
         _, impl, info = run_harness(ctx, exe, [" ".join(parts)])
         print("IMPL  ", impl)
-        print("MODEL0", C.run_model("C16", [r["model_input"]]))
-        print("MODEL1", C.run_model("C16", [r["model_input"].replace("net 0 ", "net 1 ", 1)]))
+        print("MODEL0", run_model([r["model_input"]]))
+        print("MODEL1", run_model([r["model_input"].replace("net 0 ", "net 1 ", 1)]))
     elif isinstance(r.get("case"), str):
         _, impl, info = run_harness(ctx, exe, [r["case"]])
         print("IMPL ", impl)
         if not r["case"].startswith(("mw", "local")):
-            print("MODEL", C.run_model("C16", [r["case"]]))
+            print("MODEL", run_model([r["case"]]))
     return 0
